@@ -479,6 +479,7 @@ class C05:
             case["tree"] = {"name": "u.bin", "single": True, "files": [["u.bin", len(raw) - 4, raw]], "dirs": [],
                             "layout": "utf8-hash"}
             case["version"] = 1
+            case["pl_exp"] = max(case["pl_exp"], 14)          # (the small-pieces class may have chosen 4 / 8 KiB)
             case["encoder"] = rng.choice([["tool", "TorrentFile"], ["ref", "plain"]])
             if rng.random() < 0.5:
                 # same for the SHA-256 pieces root of a one-block file (v2 / hybrid), alone or inside a directory
